@@ -363,3 +363,20 @@ def run(cx):
         ob.require("broadcast::Sender<anemo::types::PeerEvent>" in f.get("peer_event_sender", ""), "shape/sender",
                    f"peer_event_sender has type {f.get('peer_event_sender')}", INNER)
         ob.require(set(f) == {"connections", "peer_event_sender"}, "shape/fields", f"ActivePeersInner fields are {sorted(f)}", INNER)
+
+    with cx.ob("C04.6", "R-SHAPE", "one layer out: every clone of the ActivePeers handle is the same map (field-by-field Clone of the Arc), a cloned Connection is the same connection (same quinn handle, id, origin)") as ob:
+        for ty in ("anemo::network::connection_manager::ActivePeers", "anemo::network::connection_manager::ActivePeersRef", "anemo::connection::Connection", "anemo::network::Network"):
+            check_fieldwise_clone(ob, prog, ty)
+        check_peer_id_identity_derived(ob, prog)          # the map key
+
+    with cx.ob("C04.7", "R-CALLERS", "one layer out: the public listing and subscription are plain views of the peer map - NetworkInner::peers / Network::subscribe consult nothing else (no filtering by affinity, no cache)") as ob:
+        for fn_, inner in (("anemo::network::NetworkInner::peers", f"{API}::peers"), ("anemo::network::Network::subscribe", f"{API}::subscribe")):
+            fb = cx.body(fn_)
+            t = Origins(fb).of_local(0)
+            uses = term_has_call(t, inner) or any(x == ("fnptr", inner) for x in walk(t))
+            ob.require(uses, f"view/{fn_.split('::')[-1]}/answers-with-the-map", f"{fn_} returns {show(t)[:120]}", fb.path)
+            bodies = [fb] + list(prog.children(fb))
+            other = sorted({(c.fn or "?") for b_ in bodies for c in b_.calls() if not b_.is_cleanup(c.bb) and c.local and not is_tracing(c)
+                            and not name_matches(c.fn or "", (inner, "ActivePeersRef::upgrade", f"{API}::peers", f"{API}::subscribe"))})
+            ob.require(not other, f"view/{fn_.split('::')[-1]}/nothing-else", f"{fn_} also consults {[o_.split('::')[-1] for o_ in other][:4]}", fb.path)
+        check_api_forwarder(ob, prog, "peers")
